@@ -2,16 +2,19 @@
 from pyvc.report import PropertyRun
 from contracts.lib_array import LIB as ARRAY_OBJECT
 from contracts.lib_string import LIB as STRING
+from contracts.lib_cmp import LIB as CMPLIB
 from .common import run_contracts
 
 
 def run(tier):
     pr = PropertyRun('C15', tier)
-    run_contracts(pr, ARRAY_OBJECT + STRING, tier)
+    extra = [c for c in CMPLIB if c.script_name in ('arrayIndexOf', 'arrayLastIndexOf', 'arraySort', 'objectNew')]
+    run_contracts(pr, ARRAY_OBJECT + STRING + extra, tier)
     pr.assumptions += [
         'str.find/rfind/lower/upper/strip/replace/split, re.escape and urllib.parse.quote are uninterpreted functions shared by code model and specification: the proof covers argument validation, int() conversion, bounds and failure values, not those built-ins',
         'regexEscape(s) matches exactly s and URL encoding is reversible: assumed contracts of re.escape / urllib.parse.quote',
         'the argument list passed to a library function is a fresh temporary not reachable from any script value (true of the call site in evaluate_expression)',
+        'arrayIndexOf/arrayLastIndexOf are covered for a value argument (not a match function), arraySort for the default order (assumed list.sort contract: an in-place permutation); arrayJoin and stringFromCharCode are not under contract',
         'each contract quantifies over an arbitrary pre-heap with arbitrary aliasing, so any history of calls is covered by sequential composition',
     ]
     return pr
